@@ -18,6 +18,8 @@ CLAIMS = {
          "stateless schedule enumeration on the instrumented implementation", SCHED_NOTE),
  "C04": ("model_checking", "Races: every schedule within the bound of one link/monitor request (pid, name, alias, event; spawn with LinkChild) against the target's termination or unregistration. Histories: breadth-first search over link/unlink/monitor/demonitor/unregister/register/terminate sequences on the real node against a relation-set reference model, notifications and relation table compared after every event.", "3 C04",
          "stateless schedule enumeration + explicit-state BFS over operation histories on the real node", SCHED_NOTE),
+ "C06": ("model_checking", "Races: every schedule within the bound of concurrent claims of one name/event (SpawnRegister, Process.RegisterName, Node.RegisterName), claim vs termination, unregister vs register, concurrent identifier generation. Histories: BFS over register/unregister/alias/event/link/monitor/meta/terminate sequences against a registry model with table-integrity invariants in every state. Identifiers: complete windows of 2^20 consecutive counter values at the bit boundaries of MakeRef.", "3 C06",
+         "stateless schedule enumeration + explicit-state BFS + exhaustive window enumeration on the real node", SCHED_NOTE),
  "C05": ("model_checking", "Every schedule within the bound of single causes and racing pairs of termination causes (handler error, panic, Kill, parent/stranger exit signals, busy and waiting targets) on the real node; terminate-once, finality and reason oracles incl. link/monitor observers.", "3 C05",
          "stateless schedule enumeration on the instrumented implementation", SCHED_NOTE),
 }
